@@ -10,7 +10,7 @@ from harness.oracles import all as ALL
 
 ID = 'C15'
 UNITS = ['purity_helpers']
-TRANSLATORS = ['writesites', 'intervalfuncs']
+TRANSLATORS = ['writesites', 'intervalfuncs', 'framefuncs']
 NOT_COVERED = ('aliasing rules of NumPy/SciPy calls are taken from their documentation (the fresh/alias tables of translator/writesites.py); the '
                'display module (plotting, keeps a matplotlib axes map by design) is outside the property; bit-identical repeatability is '
                'observed by the oracle, the theorem layer excludes its only sources in library code (module state, uninitialised buffers)')
